@@ -6,6 +6,8 @@ non-TOF or odd TOF mashing — no bound on sizes.
 -/
 import StirVerif.C01.ProofsBins
 import StirVerif.C01.ProofsCTI
+import StirVerif.C01.ProofsGE
+import StirVerif.C01.ProofsHist
 
 namespace StirVerif.C01
 
@@ -45,7 +47,10 @@ theorem C01_mem_ringPairsOf_iff (R : Int) (s : Seg) (off a : Int) (hle : s.minRD
 theorem C01_ringPairsOf_nodup (R : Int) (s : Seg) (off a : Int) : (s.ringPairsOf R off a).Nodup :=
   Seg.ringPairsOf_nodup R s off a
 
-/-- **ring pairs are partitioned over (segment, axial position)** -/
+/-- **ring pairs are partitioned over (segment, axial position)**.  The hypothesis is satisfied by every table of
+    `ProjDataInfoCTI` outside the defect class (`C01_cti_WF`) and by every table of `ProjDataInfoGE` (`C01_ge_WF`);
+    `C01_ringpair_partition_p` / `C01_state_ringpair_partition` below need only the part `WFp` of it and so also cover a
+    sampling changed by the setters. -/
 theorem C01_ringpair_partition (g : Geom) (h : g.WFb = true) (r1 r2 : Int)
     (h1 : 0 ≤ r1 ∧ r1 < g.R) (h2 : 0 ≤ r2 ∧ r2 < g.R) (s a : Int) :
     g.segAxOfRingPair r1 r2 = some (s, a) ↔ (r1, r2) ∈ g.ringPairsOf s a :=
@@ -57,7 +62,10 @@ theorem C01_covered_assigned (g : Geom) (h : g.WFb = true) (r1 r2 : Int)
     ∃ s a sg, g.segAxOfRingPair r1 r2 = some (s, a) ∧ g.seg? s = some sg ∧ 0 ≤ a ∧ a < sg.numAx :=
   Geom.covered_assigned g h r1 r2 h1 h2 hc
 
-/-- **the pairs a bin reports are exactly the pairs assigned to it, with the reported count** -/
+/-- **the pairs a bin reports are exactly the pairs assigned to it, with the reported count**.
+    (`binInRange` only asks `|tang| < N/2`: the statements hold for every tangential range, also one reduced by
+    `set_min/max_tangential_pos_num` / `set_num_tangential_poss`.  `g.Cfg m` holds for the tables of `ProjDataInfoCTI`
+    (`C01_cti_Cfg`) and of `ProjDataInfoGE` (`C01_ge_Cfg`); the `_p` versions below need only `g.CfgP m`.) -/
 theorem C01_all_sound (g : Geom) (m : Int) (c : g.Cfg m) (b : Bin) (hb : g.binInRange m b) (p : DetPair)
     (hp : p ∈ g.allDetPairsForBin b) : g.binForDetPair p = some b ∧ p.valid g :=
   all_sound g m c b hb p hp
@@ -172,5 +180,228 @@ example : ∀ N vm tm : Int, (Geom.mk N 8 (-1) [⟨-5, -3, 9⟩, ⟨-2, 2, 15⟩
 example : ∃ g : Geom, ctiSegments 2 3 5 = some (g.minSeg, g.segs) ∧ g.Cfg 8 :=
   ⟨{ N := 2 * 8, R := 5, minSeg := -1, segs := [⟨-3, -2, 5⟩, ⟨-1, 1, 9⟩, ⟨2, 3, 5⟩], viewMash := 2, tofMash := 3 },
    by decide, C01_cti_Cfg 2 3 5 (-1) _ (by decide) (by decide) 8 2 3 (by decide) (by decide) (by decide)⟩
+
+/-! ### `ProjDataInfo::ProjDataInfoGE` ("even 'GE-style' span": segment 0 = ring differences -1, 0, 1, every other
+segment a single ring difference) -/
+
+/-- closed form of the table: segments `-(max_delta-1) … max_delta-1`; the constructor refuses `max_delta < 1` only -/
+theorem C01_ge_table_shape (maxDelta R minSeg : Int) (segs : List Seg)
+    (h : geSegments maxDelta R = some (minSeg, segs)) :
+    1 ≤ maxDelta ∧ ∃ n : Nat, (n : Int) = maxDelta - 1 ∧ minSeg = -(n : Int) ∧
+      segs = ((List.range n).map (geSegK R)).reverse.map Seg.mirror ++ geSeg0 R :: (List.range n).map (geSegK R) :=
+  geSegments_shape maxDelta R minSeg segs h
+
+/-- **every segment table `ProjDataInfoGE` builds is well-formed** — for every `max_delta ≥ 1` and every number of
+    rings, without exception (there is no clipping of a compressed segment in this constructor), so the ring-pair and
+    bin theorems above apply to it -/
+theorem C01_ge_WF (maxDelta R minSeg : Int) (segs : List Seg)
+    (h : geSegments maxDelta R = some (minSeg, segs)) (N viewMash tofMash : Int) :
+    ({ N := N, R := R, minSeg := minSeg, segs := segs, viewMash := viewMash, tofMash := tofMash } : Geom).WFb = true :=
+  ge_WF maxDelta R minSeg segs h _ rfl rfl
+
+theorem C01_ge_Cfg (maxDelta R minSeg : Int) (segs : List Seg)
+    (h : geSegments maxDelta R = some (minSeg, segs))
+    (m viewMash tofMash : Int) (hm : 0 < m) (hmash : 0 < viewMash ∧ m % viewMash = 0)
+    (htof : tofMash = 0 ∨ (0 < tofMash ∧ tofMash % 2 = 1)) :
+    Geom.Cfg { N := 2 * m, R := R, minSeg := minSeg, segs := segs, viewMash := viewMash, tofMash := tofMash } m :=
+  { hN := rfl, hm := hm, hmash := hmash, htof := htof, wf := ge_WF maxDelta R minSeg segs h _ rfl rfl }
+
+/-- non-vacuity: `max_delta = 3` on 5 rings -/
+example : ∃ g : Geom, geSegments 3 5 = some (g.minSeg, g.segs) ∧ g.Cfg 8 :=
+  ⟨{ N := 2 * 8, R := 5, minSeg := -2, segs := [⟨-3, -3, 2⟩, ⟨-2, -2, 3⟩, ⟨-1, 1, 9⟩, ⟨2, 2, 3⟩, ⟨3, 3, 2⟩], viewMash := 4, tofMash := 5 },
+   by decide, C01_ge_Cfg 3 5 (-2) _ (by decide) 8 4 5 (by decide) (by decide) (by decide)⟩
+
+/-! ### sampling changed after construction ("reduced segment or tangential range")
+
+`CylState` is what `reduce_segment_range`, `set_min/max_ring_difference`, `set_min/max_axial_pos_num`,
+`set_min/max_tangential_pos_num`, `set_num_tangential_poss`, `set_num_views` store; the lazy tables are rebuilt from
+it, i.e. every look-up is the look-up of `CylState.geom`. -/
+
+/-- a freshly constructed object looks up in the constructed geometry -/
+theorem C01_state_fresh (g : Geom) (minTang maxTang : Int) : (CylState.ofGeom g minTang maxTang).geom = g :=
+  CylState.geom_ofGeom g minTang maxTang
+
+/-- **reduced tangential range**: no table depends on the tangential range … -/
+theorem C01_state_tang_indep (c : CylState) (a b n : Int) :
+    ({ c with minTang := a } : CylState).geom = c.geom ∧ ({ c with maxTang := b } : CylState).geom = c.geom ∧
+      (c.setNumTang n).geom = c.geom :=
+  ⟨rfl, rfl, rfl⟩
+
+/-- … and `set_num_views` changes the view mashing factor only -/
+theorem C01_state_views (c : CylState) (k : Int) :
+    ({ c with viewMash := k } : CylState).geom = { c.geom with viewMash := k } := rfl
+
+/-- for a sampling whose geometry satisfies `WFp` the rebuild of the tables does not call `error` and
+    `get_segment_axial_pos_num_for_ring_pair` is the look-up of the geometry -/
+theorem C01_state_lookup (c : CylState) (h : c.geom.WFp = true) (r1 r2 : Int) :
+    c.initErr = false ∧ c.segAxOfRingPair r1 r2 = .ok (c.geom.segAxOfRingPair r1 r2) :=
+  ⟨c.initErr_of_WFp h, c.segAxOfRingPair_eq h r1 r2⟩
+
+/-- `WFp` is the part of `WFb` that does not mention the axial range -/
+theorem C01_WFp_of_WFb (g : Geom) (h : g.WFb = true) : g.WFp = true := g.WFp_of_WFb h
+
+/-- **ring pairs are partitioned over (segment, axial position)**, hypothesis `WFp` only -/
+theorem C01_ringpair_partition_p (g : Geom) (h : g.WFp = true) (r1 r2 : Int)
+    (h1 : 0 ≤ r1 ∧ r1 < g.R) (h2 : 0 ≤ r2 ∧ r2 < g.R) (s a : Int) :
+    g.segAxOfRingPair r1 r2 = some (s, a) ↔ (r1, r2) ∈ g.ringPairsOf s a :=
+  g.ringpair_partition_p h r1 r2 h1 h2 s a
+
+/-- **… on the changed sampling**: a ring pair is assigned to `(s, a)` by the object iff the object lists it for `(s, a)` -/
+theorem C01_state_ringpair_partition (c : CylState) (h : c.geom.WFp = true) (r1 r2 : Int)
+    (h1 : 0 ≤ r1 ∧ r1 < c.R) (h2 : 0 ≤ r2 ∧ r2 < c.R) (s a : Int) :
+    c.segAxOfRingPair r1 r2 = .ok (some (s, a)) ↔ (r1, r2) ∈ c.geom.ringPairsOf s a := by
+  rw [c.segAxOfRingPair_eq h]
+  constructor
+  · intro he
+    have : c.geom.segAxOfRingPair r1 r2 = some (s, a) := by injection he
+    exact (c.geom.ringpair_partition_p h r1 r2 h1 h2 s a).1 this
+  · intro hm
+    rw [(c.geom.ringpair_partition_p h r1 r2 h1 h2 s a).2 hm]
+
+/-- the bin theorems under `CfgP` (even number of detectors, view mashing dividing `N/2`, non-TOF or odd TOF mashing,
+    `WFp`): **the pairs a bin reports are exactly the pairs assigned to it, with the reported count; exchange;
+    uncompressed inverse** — for every geometry a `CylState` with `WFp` looks up in -/
+theorem C01_all_sound_p (g : Geom) (m : Int) (c : g.CfgP m) (b : Bin) (hb : g.binInRange m b) (p : DetPair)
+    (hp : p ∈ g.allDetPairsForBin b) : g.binForDetPair p = some b ∧ p.valid g :=
+  all_sound_p g m c b hb p hp
+
+theorem C01_all_complete_p (g : Geom) (m : Int) (c : g.CfgP m) (b : Bin) (p : DetPair) (hp : p.valid g)
+    (h : g.binForDetPair p = some b) :
+    g.binInRange m b ∧ (p ∈ g.allDetPairsForBin b ∨ p.swapped ∈ g.allDetPairsForBin b) :=
+  all_complete_p g m c b p hp h
+
+theorem C01_all_nodup_count_p (g : Geom) (m : Int) (c : g.CfgP m) (b : Bin) (hb : g.binInRange m b) :
+    (g.allDetPairsForBin b).Nodup ∧ (g.allDetPairsForBin b).length = g.numDetPairsForBin b :=
+  all_nodup_count_p g m c b hb
+
+theorem C01_swapped_same_bin_p (g : Geom) (m : Int) (c : g.CfgP m) (p : DetPair) (hp : p.valid g) (b : Bin)
+    (h : g.binForDetPair p = some b) : g.binForDetPair p.swapped = some b :=
+  swapped_same_bin_p g m c p hp b h
+
+theorem C01_uncompressed_inverse_p (g : Geom) (m : Int) (c : g.CfgP m) (h1 : g.viewMash = 1) (ht : g.tofMash ≤ 1)
+    (b : Bin) (hb : g.binInRange m b) (p : DetPair) (h : g.detPairForBin b = some p)
+    (hr : 0 ≤ p.r1 ∧ p.r1 < g.R ∧ 0 ≤ p.r2 ∧ p.r2 < g.R) : g.binForDetPair p = some b :=
+  uncompressed_inverse_p g m c h1 ht b hb p h hr
+
+/-- the tables of both constructors are sorted by ring difference … -/
+theorem C01_cti_sorted (span maxDelta R minSeg : Int) (segs : List Seg)
+    (h : ctiSegments span maxDelta R = some (minSeg, segs)) : SegsSorted segs :=
+  cti_sorted span maxDelta R minSeg segs h
+
+theorem C01_ge_sorted (maxDelta R minSeg : Int) (segs : List Seg)
+    (h : geSegments maxDelta R = some (minSeg, segs)) : SegsSorted segs :=
+  ge_sorted maxDelta R minSeg segs h
+
+/-- … and **`reduce_segment_range` of a sorted table satisfying `WFp` is again sorted and satisfies `WFp`**, whatever
+    range of segments is kept (also an asymmetric one, also one that does not contain segment 0) -/
+theorem C01_reduce_WFp (c : CylState) (h : c.geom.WFp = true) (hs : SegsSorted c.geom.segs) (lo hi : Int) :
+    (c.reduceSegmentRange lo hi).geom.WFp = true ∧ SegsSorted (c.reduceSegmentRange lo hi).geom.segs :=
+  c.reduce_WFp h hs lo hi
+
+/-- a freshly constructed object: `2m` detectors per ring, the given segment table and tangential range -/
+def builtState (R minSeg : Int) (segs : List Seg) (m viewMash tofMash minTang maxTang : Int) : CylState :=
+  CylState.ofGeom ⟨2 * m, R, minSeg, segs, viewMash, tofMash⟩ minTang maxTang
+
+/-- hence every object built by `ProjDataInfoCTI` outside the defect class whose segment range was reduced (and whose
+    tangential range is arbitrary) is a configuration of the bin theorems -/
+theorem C01_reduced_cti_CfgP (span maxDelta R minSeg : Int) (segs : List Seg)
+    (h : ctiSegments span maxDelta R = some (minSeg, segs)) (hnd : ¬ ctiDefect span maxDelta R)
+    (m viewMash tofMash : Int) (hm : 0 < m) (hmash : 0 < viewMash ∧ m % viewMash = 0)
+    (htof : tofMash = 0 ∨ (0 < tofMash ∧ tofMash % 2 = 1)) (minTang maxTang lo hi : Int) :
+    Geom.CfgP ((builtState R minSeg segs m viewMash tofMash minTang maxTang).reduceSegmentRange lo hi).geom m := by
+  have hg : (builtState R minSeg segs m viewMash tofMash minTang maxTang).geom = ⟨2 * m, R, minSeg, segs, viewMash, tofMash⟩ :=
+    CylState.geom_ofGeom ⟨2 * m, R, minSeg, segs, viewMash, tofMash⟩ minTang maxTang
+  have hwf := Geom.WFp_of_WFb _ (cti_WF span maxDelta R minSeg segs h hnd
+    (builtState R minSeg segs m viewMash tofMash minTang maxTang).geom (by rw [hg]) (by rw [hg]))
+  have hsorted : SegsSorted (builtState R minSeg segs m viewMash tofMash minTang maxTang).geom.segs := by
+    rw [hg]; exact cti_sorted span maxDelta R minSeg segs h
+  exact { hN := rfl, hm := hm, hmash := hmash, htof := htof,
+          wf := (CylState.reduce_WFp _ hwf hsorted lo hi).1 }
+
+/-- the same for `ProjDataInfoGE` (no exception) -/
+theorem C01_reduced_ge_CfgP (maxDelta R minSeg : Int) (segs : List Seg)
+    (h : geSegments maxDelta R = some (minSeg, segs))
+    (m viewMash tofMash : Int) (hm : 0 < m) (hmash : 0 < viewMash ∧ m % viewMash = 0)
+    (htof : tofMash = 0 ∨ (0 < tofMash ∧ tofMash % 2 = 1)) (minTang maxTang lo hi : Int) :
+    Geom.CfgP ((builtState R minSeg segs m viewMash tofMash minTang maxTang).reduceSegmentRange lo hi).geom m := by
+  have hg : (builtState R minSeg segs m viewMash tofMash minTang maxTang).geom = ⟨2 * m, R, minSeg, segs, viewMash, tofMash⟩ :=
+    CylState.geom_ofGeom ⟨2 * m, R, minSeg, segs, viewMash, tofMash⟩ minTang maxTang
+  have hwf := Geom.WFp_of_WFb _ (ge_WF maxDelta R minSeg segs h
+    (builtState R minSeg segs m viewMash tofMash minTang maxTang).geom (by rw [hg]) (by rw [hg]))
+  have hsorted : SegsSorted (builtState R minSeg segs m viewMash tofMash minTang maxTang).geom.segs := by
+    rw [hg]; exact ge_sorted maxDelta R minSeg segs h
+  exact { hN := rfl, hm := hm, hmash := hmash, htof := htof,
+          wf := (CylState.reduce_WFp _ hwf hsorted lo hi).1 }
+
+/-- non-vacuity: span 3, `max_delta` 4 on 5 rings, reduced to segments 0 … 1, tangential range -3 … 2 -/
+def reducedExample : CylState :=
+  (CylState.ofGeom { N := 16, R := 5, minSeg := -1, segs := [⟨-4, -2, 5⟩, ⟨-1, 1, 9⟩, ⟨2, 4, 5⟩], viewMash := 2, tofMash := 3 }
+    (-3) 2).reduceSegmentRange 0 1
+
+example : reducedExample.geom.CfgP 8 ∧ reducedExample.geom.segs = [⟨-1, 1, 9⟩, ⟨2, 4, 5⟩] ∧ reducedExample.minSeg = 0 ∧
+    reducedExample.segAxOfRingPair 0 3 = .ok (some (1, 1)) ∧ reducedExample.geom.ringPairsOf 1 1 = [(0, 3)] ∧
+    reducedExample.segAxOfRingPair 3 0 = .ok none :=
+  ⟨C01_reduced_cti_CfgP 3 4 5 (-1) _ (by decide) (by decide) 8 2 3 (by decide) (by decide) (by decide) (-3) 2 0 1,
+   by decide, by decide, by decide, by decide, by decide⟩
+
+/-! ### the setters can leave a single-ring-difference segment with an axial range of the wrong parity
+
+(known finding `ringpairs:setters-leave-single-ring-difference-segment-with-axial-range-of-odd-parity`, same root cause
+as `C01_F3_truncated_segment_not_partitioned`): 3 rings, span 1, `max_delta` 0, then `set_min_axial_pos_num(1, 0)`.
+`m_offset` re-centres the two remaining axial positions half a ring spacing away from the rings: ring pairs (1,1), (2,2)
+are assigned to axial positions 1, 2 while both lists are empty.  `WFp` is false, so no theorem applies. -/
+
+def setterWitness : CylState :=
+  (CylState.ofGeom { N := 8, R := 3, minSeg := 0, segs := [⟨0, 0, 3⟩], viewMash := 1, tofMash := 0 } (-1) 1).setMinAx 0 1
+
+theorem C01_F4_setter_parity :
+    ctiSegments 1 0 3 = some (0, [⟨0, 0, 3⟩]) ∧ setterWitness.segs = [⟨0, 0, 1, 2⟩] ∧ setterWitness.initErr = false ∧
+    setterWitness.geom.WFp = false ∧
+    setterWitness.segAxOfRingPair 1 1 = .ok (some (0, 1)) ∧ setterWitness.segAxOfRingPair 2 2 = .ok (some (0, 2)) ∧
+    setterWitness.geom.ringPairsOf 0 1 = [] ∧ setterWitness.geom.ringPairsOf 0 2 = [] := by decide
+
+/-! ### the spatial list of a bin (`get_all_det_pos_pairs_for_bin(…, ignore_non_spatial_dimensions = true)`,
+`get_num_det_pos_pairs_for_bin(bin, true)`) — "with the reported count", TOF data included -/
+
+/-- the reported spatial count is the length of the spatial list, and the full count is the spatial count times the TOF
+    mashing factor (1 for non-TOF data) -/
+theorem C01_spatial_count (g : Geom) (b : Bin) :
+    (g.spatialDetPairsForBin b).length = g.numSpatialDetPairsForBin b ∧
+      g.numDetPairsForBin b = g.numSpatialDetPairsForBin b * (max 1 g.tofMash).toNat :=
+  ⟨spatial_length g b, rfl⟩
+
+/-- the spatial list contains exactly the detector / ring parts of the pairs of the full list, with timing position 0 -/
+theorem C01_spatial_mem (g : Geom) (b : Bin) (p : DetPair) (ht : 0 ≤ g.tofMash) :
+    p ∈ g.spatialDetPairsForBin b ↔
+      p.t = 0 ∧ ∃ t, (⟨p.d1, p.r1, p.d2, p.r2, t⟩ : DetPair) ∈ g.allDetPairsForBin b :=
+  mem_spatial_iff g b p ht
+
+/-- … each once -/
+theorem C01_spatial_nodup (g : Geom) (m : Int) (c : g.CfgP m) (b : Bin) (hb : g.binInRange m b) :
+    (g.spatialDetPairsForBin b).Nodup :=
+  spatial_nodup g m c.hN c.hm c.hmash b hb
+
+/-- non-vacuity: a TOF geometry (mashing 3) with view mashing 2; the bin (1, 1, 2, -2, 1) has 2 ring pairs, hence lists
+    2 x 2 spatial pairs, 12 in all -/
+example : reducedExample.geom.numSpatialDetPairsForBin ⟨1, 1, 2, -2, 1⟩ = 4 ∧
+    reducedExample.geom.numDetPairsForBin ⟨1, 1, 2, -2, 1⟩ = 12 ∧
+    (reducedExample.geom.spatialDetPairsForBin ⟨1, 1, 2, -2, 1⟩).length = 4 ∧
+    (reducedExample.geom.allDetPairsForBin ⟨1, 1, 2, -2, 1⟩).length = 12 := by decide
+
+/-! ### even TOF mashing factors (known finding `tofmash:even-factor`; the bin theorems assume an odd factor)
+
+8 detectors, 2 rings, span 1, TOF mashing factor 2: the central TOF bin of the bin (0,0,0,0) lists the timing positions
+-1, 0, 1 — three entries for a reported count of 2 (the real code writes the third entry past the end of the vector) — and
+the pairs with timing positions ±1 are assigned to the TOF bins ±1, whose lists (1, 2, 3) overlap the central one. -/
+
+def evenTofWitness : Geom := { N := 8, R := 2, minSeg := 0, segs := [⟨0, 0, 2⟩], viewMash := 1, tofMash := 2 }
+
+theorem C01_F5_even_tof_mashing_not_partitioned :
+    evenTofWitness.WFb = true ∧
+    evenTofWitness.allDetPairsForBin ⟨0, 0, 0, 0, 0⟩ = [⟨0, 0, 4, 0, -1⟩, ⟨0, 0, 4, 0, 0⟩, ⟨0, 0, 4, 0, 1⟩] ∧
+    evenTofWitness.numDetPairsForBin ⟨0, 0, 0, 0, 0⟩ = 2 ∧
+    evenTofWitness.binForDetPair ⟨0, 0, 4, 0, 1⟩ = some ⟨0, 0, 0, 0, 1⟩ ∧
+    evenTofWitness.binForDetPair ⟨0, 0, 4, 0, -1⟩ = some ⟨0, 0, 0, 0, -1⟩ ∧
+    (⟨0, 0, 4, 0, 1⟩ : DetPair) ∈ evenTofWitness.allDetPairsForBin ⟨0, 0, 0, 0, 1⟩ := by decide
 
 end StirVerif.C01
